@@ -1,6 +1,7 @@
 package gspec
 
 import (
+	"io"
 	"context"
 	"errors"
 	"fmt"
@@ -203,10 +204,21 @@ type RunCtl struct {
 	OnBodyEnd func(ctx context.Context, node string)
 	// OnChunk is called by goroutine-backed producers before every Send.
 	OnChunk func(node string, i int)
+	// EOFInChain: every error a fault produces also has io.EOF in its Unwrap chain (a node failing with
+	// fmt.Errorf("read: %w", io.EOF) has failed; only the bare io.EOF value means end of stream)
+	EOFInChain bool
 	// StopAfter: rerun nodes interrupt on their first attempt only when true
 	RerunEnabled bool
 	// RerunSeen is shared by all calls of one interrupt/resume history (path -> struct{})
 	RerunSeen *sync.Map
+}
+
+// faultErr decorates an injected failure (see EOFInChain).
+func (c *RunCtl) faultErr(err error) error {
+	if c != nil && c.EOFInChain {
+		return fmt.Errorf("%w [also wraps %w]", err, io.EOF)
+	}
+	return err
 }
 
 type ctlKey struct{}
